@@ -417,8 +417,8 @@ def case_prep_samples(rep):
                 rep.exhaustive = False
             for om in inits:
                 for oc in (inits if n <= 3 else [rep.rng.choice(orders) for _ in range(2)]):
-                    mv = [CVR(id=ids[i], votes={"c": {"m": i}}) for i in om]
-                    cv = [CVR(id=ids[i], votes={"c": {"v": i}}) for i in oc]
+                    mv = [CVR(id=ids[i], votes={"c": {"m": i}}, phantom=bool(i % 2)) for i in om]       # (some sampled cards are phantoms)
+                    cv = [CVR(id=ids[i], votes={"c": {"v": i}}, phantom=bool(i % 2)) for i in oc]
                     mv0, cv0 = mv, cv
                     inp = {"selection_order": list(sel), "mvr_order": list(om), "cvr_order": list(oc)}
                     rep.case(("cmp", sel, om, oc))
@@ -430,7 +430,7 @@ def case_prep_samples(rep):
                     if [x.id for x in mv0] != want or [x.id for x in cv0] != want:
                         rep.fail("prep_comparison_sample leaves BOTH of the caller's lists in selection order, paired by identifier", inp,
                                  got={"mvr": [x.id for x in mv0], "cvr": [x.id for x in cv0]}, expected=want)
-                mv = [CVR(id=ids[i], votes={}) for i in om]
+                mv = [CVR(id=ids[i], votes={}, phantom=bool(i % 2)) for i in om]
                 rep.case(("poll", sel, om))
                 try:
                     CVR.prep_polling_sample(mv, so)
@@ -1022,6 +1022,67 @@ def case_irv_tree(rep):
             rest = [x for x in cands if x != c]
             IR.append((c, set(rng.sample(rest, rng.randint(0, len(rest)))), rng.random() < 0.5))
         check(cands, root, WO, IR)
+    # buildPrintedResults: one tree per apparent non-winner, each over ALL the other candidates (the drawing call is intercepted to
+    # read the labelled tree that would be drawn)
+    import types
+
+    def unpruned_paths(t, prefix=()):
+        """paths (root first) to the leaves drawn with the 'Unpruned leaf' marker; a drawn leaf is (name, tag-string)"""
+        path = prefix + (str(t[0]),)
+        out = []
+        for kk in t[1:]:
+            if isinstance(kk, str):
+                if "Unpruned leaf" in kk:
+                    out.append(path)
+            else:
+                out.extend(unpruned_paths(kk, path))
+        return out
+
+    for _ in range(400 if thorough(rep) else 120):
+        nc = rng.randint(3, maxc)
+        cands = [str(i) for i in range(1, nc + 1)]
+        winner = rng.choice(cands)
+        nonw = [c for c in cands if c != winner]
+        WO = []
+        for _ in range(rng.randint(0, 5)):
+            l, w = rng.sample(cands, 2)
+            WO.append((l, w, rng.random() < 0.5))
+        IR = []
+        for _ in range(rng.randint(0, 5)):
+            c = rng.choice(cands)
+            rest = [x for x in cands if x != c]
+            IR.append((c, set(rng.sample(rest, rng.randint(0, len(rest)))), rng.random() < 0.5))
+        drawn = []
+        saved_svg, saved_cap = V.svgling, getattr(V, "Caption", None)
+        V.svgling = types.SimpleNamespace(draw_tree=lambda t: (drawn.append(t), t)[1])
+        V.Caption = lambda tree, text: (tree, text)
+        inp = {"candidates": cands, "winner": winner, "NEB(loser,winner,proved)": WO, "NEN(cand,eliminated,proved)": [(a, sorted(b), p_) for a, b, p_ in IR]}
+        rep.case(("printed", tuple(cands), winner, tuple(WO), tuple((a, tuple(sorted(b)), p_) for a, b, p_ in IR)))
+        try:
+            V.buildPrintedResults(winner, [(c, "cand" + c) for c in nonw], [tuple(a) for a in WO], [(a, set(b), p_) for a, b, p_ in IR])
+        except Exception as ex:
+            rep.fail("buildPrintedResults does not raise", inp, got=type(ex).__name__ + ": " + str(ex)[:80])
+            continue
+        finally:
+            V.svgling = saved_svg
+            if saved_cap is not None:
+                V.Caption = saved_cap
+        if len(drawn) != len(nonw) or [str(t[0]) for t in drawn] != nonw:
+            rep.fail("one tree per alternative winner, rooted at that candidate", inp, got=[str(t[0]) for t in drawn])
+            continue
+        for root, t in zip(nonw, drawn):
+            # orders ending in `root` (first eliminated first) contradicted by no assertion
+            free = []
+            for order in itertools.permutations([c for c in cands if c != root]):
+                full = list(order) + [root]
+                hit = any(full.index(l) > full.index(w) for (l, w, _) in WO) or \
+                    any(set(full[:full.index(c)]) == set(E) for (c, E, _) in IR)
+                if not hit:
+                    free.append(tuple(full))
+            shown = unpruned_paths(t)
+            if bool(shown) != bool(free):
+                rep.fail("the tree drawn for an alternative winner shows an unpruned leaf exactly when some order ending in that candidate is "
+                         "contradicted by no assertion", dict(inp, alt_winner=root), got=shown[:2], expected=free[:2])
     # parseAssertions: translation of assertion JSON to pruning tuples (audit log format, several contests)
     cand_file = {"List": [{"Id": i, "Description": f"cand{i}"} for i in range(1, 5)]}
     for trial in range(300 if thorough(rep) else 80):
@@ -1131,20 +1192,20 @@ def case_raire(rep):
         return [tuple(p) for r in range(0, len(cands) + 1) for p in itertools.permutations(cands, r)]
 
     def profiles():
-        c2 = ["A", "B"]
+        c2 = ["1", "11"]            # identifiers that are prefixes / suffixes of one another, as numeric identifiers are
         for n in range(0, 6):
             for prof in itertools.combinations_with_replacement(rankings(c2), n):
                 yield c2, prof
-        c3 = ["A", "B", "C"]
+        c3 = ["1", "11", "2"]
         for n in range(0, (6 if thorough(rep) else 5)):
             for prof in itertools.combinations_with_replacement(rankings(c3), n):
                 yield c3, prof
-        c4 = ["A", "B", "C", "D"]
+        c4 = ["1", "11", "2", "12"]
         r4 = rankings(c4)
         for _ in range(8000 if thorough(rep) else 1500):
             yield c4, tuple(rng.choice(r4) for _ in range(rng.randint(1, 6)))
         # 5 candidates: nodes deeper than the dive's own expansion exist only from 5 candidates on (best-ancestor bookkeeping)
-        c5 = ["A", "B", "C", "D", "E"]
+        c5 = ["1", "11", "2", "12", "21"]
         for _ in range(6000 if thorough(rep) else 900):
             yield c5, tuple(tuple(rng.sample(c5, rng.randint(1, 5))) for _ in range(rng.randint(4, 14)))
 
@@ -1709,3 +1770,91 @@ def case_nonneg_dtype(rep):
                                          got={"p": o[1], "history": o[2]}, expected={"p": ref[1], "history": ref[2]})
     rep.sample({"test": "betting_mart", "bet": "fixed_bet", "x": [1, 0, 1], "typing": "int array"})
     rep.exhaustive = True
+
+
+# =========================================================================================== C11 / C12 / C01: the published definitions, natively
+
+def case_nonneg_definitions(rep):
+    """An engine-independent net under the deductive obligations: every test, built through the real constructor, run natively on
+    every small sample over {0, u/2, u}; histories compared with the published products (C12) inside the regime without boundary
+    conventions (0 < mu_i < u, total <= N t), and the well-formedness clauses (C11) on every sample."""
+    from shangrla.core.NonnegMean import NonnegMean
+    lens = (1, 2, 3, 4) if not thorough(rep) else (1, 2, 3, 4, 5)
+    rep.bound = f"u in {{1, 1.25}}, samples over {{0, u/2, u}} of length {lens}, N in {{inf, len+2}}, random_order in {{True, False}}, " \
+                "t in {1/2, 0.4}; every test with every shipped estimator / bet"
+    configs = [("alpha_mart", {"estim": e}) for e in ("fixed_alternative_mean", "shrink_trunc", "optimal_comparison")] + \
+              [("betting_mart", {"bet": b}) for b in ("fixed_bet", "agrapa")] + \
+              [(tn, {}) for tn in ("kaplan_markov", "kaplan_wald", "kaplan_kolmogorov", "wald_sprt")]
+    for u in (1.0, 1.25):
+        for t in (0.5, 0.4):
+            for n in lens:
+                for xs in itertools.product((0.0, u / 2, u), repeat=n):
+                    x = np.array(xs)
+                    for N in (np.inf, n + 2):
+                        for ro in (True, False):
+                            for tname, kw, g in [(a_, b_, g_) for a_, b_ in configs for g_ in ((0.1, 0.0) if a_.startswith("kaplan") else (0.1,))]:
+                                if tname == "kaplan_kolmogorov" and N == np.inf:
+                                    continue
+                                if tname in ("kaplan_markov", "kaplan_wald") and N != np.inf:
+                                    continue
+                                if tname == "wald_sprt" and N != np.inf and not ro:
+                                    continue
+                                if kw.get("estim") == "optimal_comparison" and u == 1.0:
+                                    continue            # (known finding K2: division by zero at u = 1, recorded with the deductive obligations)
+                                args = dict(test=getattr(NonnegMean, tname), u=u, N=N, t=t, random_order=ro, g=g, eta=(t + u) / 2, lam=0.5 / u)
+                                for k_, v_ in kw.items():
+                                    args[k_] = getattr(NonnegMean, v_)
+                                inp = {"test": tname, **kw, "u": u, "t": t, "g": g, "N": ("inf" if N == np.inf else N), "random_order": ro, "x": list(xs)}
+                                rep.case(inp, nontrivial=n >= 2)
+                                try:
+                                    obj = NonnegMean(**args)
+                                    with np.errstate(all="ignore"):
+                                        p, hist = obj.test(x.copy())
+                                    hist = np.asarray(hist, dtype=float)
+                                except Exception as ex:
+                                    rep.fail("the test returns", inp, got=type(ex).__name__ + ": " + str(ex)[:80])
+                                    continue
+                                S_prev = np.insert(np.cumsum(x), 0, 0)[:-1]
+                                j = np.arange(1, n + 1)
+                                mu = (N * t - S_prev) / (N - j + 1) if N != np.inf else t * np.ones(n)
+                                inside = bool(np.all(mu > 1e-9) and np.all(mu < u - 1e-9) and (N == np.inf or x.sum() <= N * t - 1e-9))
+                                # known findings K1-K4, K6, K9 live outside this regime or in NaN corners: only finite, inside cases are compared
+                                exp = None
+                                with np.errstate(all="ignore"):
+                                    if tname == "kaplan_markov":
+                                        exp = np.cumprod((x + g) / (t + g))
+                                    elif tname == "kaplan_wald":
+                                        exp = np.cumprod((1 - g) * x / t + g)
+                                    elif tname == "kaplan_kolmogorov" and inside:
+                                        exp = np.cumprod((x + g) / (mu + g))
+                                    elif tname == "wald_sprt" and inside:
+                                        eta0 = args["eta"]
+                                        etaj = (N * eta0 - S_prev) / (N - j + 1) if N != np.inf else eta0 * np.ones(n)
+                                        if np.all(etaj > 1e-9) and np.all(etaj < u - 1e-9):
+                                            exp = np.cumprod((x * etaj / mu + (u - x) * (u - etaj) / (u - mu)) / u)
+                                    elif tname == "alpha_mart" and inside:
+                                        etaj = np.asarray(obj.estim(x.copy()), dtype=float)
+                                        if np.all(np.isfinite(etaj)) and np.all(etaj >= 0) and np.all(etaj <= u):
+                                            exp = np.cumprod((x * etaj / mu + (u - x) * (u - etaj) / (u - mu)) / u)
+                                    elif tname == "betting_mart" and inside:
+                                        lam = np.asarray(obj.bet(x.copy()), dtype=float)
+                                        if np.all(np.isfinite(lam)) and np.all(lam >= 0) and np.all(lam * mu <= 1 + 1e-12):
+                                            exp = np.cumprod(1 + lam * (x - mu))
+                                    if exp is not None and np.all(np.isfinite(exp)) and np.all(exp >= 0):
+                                        want = np.minimum(1, 1 / exp)
+                                        if not (hist.shape == want.shape and np.allclose(hist, want, rtol=1e-9, atol=1e-12)):
+                                            rep.fail("history = min(1, 1/T_j) with the published product T_j", inp, got=hist.tolist(), expected=want.tolist())
+                                            continue
+                                        finite_ok = True
+                                    else:
+                                        finite_ok = False
+                                if finite_ok:
+                                    if len(hist) != n or np.any(np.isnan(hist)) or np.any(hist < 0) or np.any(hist > 1) or not (0 <= p <= 1):
+                                        rep.fail("one history entry per observation, every entry and p in [0,1], never NaN", inp, got={"p": float(p), "history": hist.tolist()})
+                                    elif tname not in ("alpha_mart", "betting_mart"):
+                                        # (alpha_mart / betting_mart report the smallest entry whatever random_order says: recorded behaviour,
+                                        #  outside this clause; the other tests follow the declared order)
+                                        want_p = float(np.min(hist)) if ro else float(hist[-1])
+                                        if not math.isclose(float(p), want_p, rel_tol=1e-9, abs_tol=1e-12):
+                                            rep.fail("overall p = smallest entry in random order, last entry otherwise", inp, got=float(p), expected=want_p)
+    rep.sample({"test": "kaplan_wald", "u": 1.0, "t": 0.5, "N": "inf", "random_order": False, "x": [1.0, 0.0, 1.0]})
